@@ -6,6 +6,7 @@ import (
 	"fmt"
 	"io"
 	"reflect"
+	"runtime"
 	"strings"
 	"time"
 	"unicode/utf8"
@@ -189,7 +190,7 @@ func (r *CountingReader) ReadRune() (rune, int, error) {
 // Stream writes vals one after another through one encoder (api "enc") or one
 // serializer (api "ser") into one buffer, reads them back through one
 // decoder / serializer over a counting reader, and records offsets.
-func Stream(api string, vals []interface{}) proj.M {
+func Stream(api string, vals []interface{}, gc bool) proj.M {
 	ev := proj.M{"ev": "stream", "api": api}
 	var typMap map[string]reflect.Type
 	var nameMap map[string]string
@@ -231,6 +232,9 @@ func Stream(api string, vals []interface{}) proj.M {
 		}
 		ends = append(ends, buf.Len())
 		werr = append(werr, b2i(err != nil || p))
+		if gc {
+			runtime.GC()
+		}
 	}
 	out := append([]byte{}, buf.Bytes()...)
 	ev["out"], ev["ends"], ev["werr"], ev["wpanic"] = proj.Octets(out), ends, werr, wpanic
